@@ -126,7 +126,7 @@ class World:
             'events_kept_scheduled': 0, 'history_pruned': 0,
             'policy_pruned_events': 0, 'conn_loss_fired': 0,
             'conn_loss_retried_ok': 0, 'archiver_died_conn_loss': 0,
-            'archiver_raised_unexpected': 0, 'recoveries': 0,
+            'recoveries': 0,
             'api_download_checks': 0, 'api_list_checks': 0,
             'oracle_evaluations': 0}
         self.faults = {'crash': 0, 'conn_loss': 0}
@@ -272,7 +272,9 @@ class World:
             elif outcome == 'died':
                 self.probes['archiver_died_conn_loss'] += 1
         if outcome == 'raised' or (outcome == 'died' and not fired):
-            self.probes['archiver_raised_unexpected'] += 1
+            # present only if it happened: zero is the expected value
+            self.probes['archiver_raised_unexpected'] = \
+                self.probes.get('archiver_raised_unexpected', 0) + 1
         if outcome == 'complete':
             self.probes['archive_complete'] += 1
         else:
@@ -385,7 +387,7 @@ class Generator:
                                 '%s.%s.%d.0' % (uniq, svc,
                                                 rng.choice([0, 1]))))
                     age -= 0.1
-        return [(max(a, -0.5), t, d) for a, t, d in out]
+        return [(max(a, -0.5), t, d) for a, t, d in out[:self.cfg['max_life']]]
 
     def _terminal(self):
         rng = self.rng
@@ -425,24 +427,26 @@ class Generator:
             role = rngmod.weighted(rng, self.cfg['roles']) if main \
                 else 'finished'
             insts.append((inst, host, role))
-            base_age = rng.choice(base_ages if main else base_ages[:3])
-            t_sched = horizon
-            at(t_sched, {'op': 'schedule', 'inst': inst, 'host': host})
-            life = self._life(inst, host, t_arch, base_age, par)
             terms = []
             if role in ('finished', 'stale', 'refinished'):
-                ages = fin_ages if main else old_ages
-                first = rng.choice(ages)
+                first = rng.choice(fin_ages if main else old_ages)
                 terms.append(first)
                 if role == 'refinished':
                     younger = [a for a in fin_ages if a < first]
                     if younger:
                         terms.append(rng.choice(younger))
+                base_age = min(horizon, first + rng.choice(
+                    [2.0, 30.0, float(exp_t)]))
+            else:
+                base_age = rng.choice(base_ages)
+            t_sched = horizon
+            at(t_sched, {'op': 'schedule', 'inst': inst, 'host': host})
+            life = self._life(inst, host, t_arch, base_age, par)
             t_end = terms[0] if terms else -1.0
             # non-terminal events are published (late or on time) at the
             # scheduling instant; their `when` is what counts
             for age, etype, data in life:
-                age = max(age, t_end + 0.01) if terms else age
+                age = max(age, t_end + 0.02) if terms else age
                 at(t_sched, {'op': 'event', 'inst': inst, 'host': host,
                              'when': _stamp(t_arch - age), 'type': etype,
                              'data': data})
@@ -529,8 +533,9 @@ def make_config(prop, tier, rng):
     cfg['server_shards'] = sorted(rng.sample(range(256), 3))
     cfg['proids'] = ['proid%d' % i for i in range(rng.randint(1, 2))]
     cfg['servers'] = ['s%d.sim' % i for i in range(rng.randint(1, 3))]
-    cfg['n_inst'] = rng.randint(3, 12 if big else 8)
-    cfg['n_srv_events'] = rng.randint(0, 12 if big else 8)
+    cfg['n_inst'] = rng.randint(3, 12 if big else 6)
+    cfg['n_srv_events'] = rng.randint(0, 12 if big else 7)
+    cfg['max_life'] = rng.choice([8, 12, 20] if big else [5, 8, 10])
     cfg['pre_rounds'] = rng.choice([0, 1, 1, 2])
     cfg['p_evictions'] = rng.choice([0.0, 0.15, 0.4])
     cfg['roles'] = [['running', rng.choice([1, 2, 3])],
@@ -547,7 +552,7 @@ def make_config(prop, tier, rng):
         'evict_max': rng.choice([10, 3, 2]),
         'svc_max': rng.choice([10, 3, 2])}
     cfg['recover_frac'] = 1.0 if big else 0.25
-    cfg['conn_loss_points'] = None if big else 5
+    cfg['conn_loss_points'] = None if big else 8
     return cfg
 
 
@@ -621,10 +626,23 @@ class TraceSim(enginemod.Engine):
         ]
 
     def quick_runs(self, prop):
-        return 96
+        return 64
 
     def make_config(self, prop, tier, rng):
         return make_config(prop, tier, rng)
+
+    def shrink_candidates(self, config, ops):
+        """Consecutive advances merged into one (same instants)."""
+        merged = []
+        for op in ops:
+            if op.get('op') == 'advance' and merged and \
+                    merged[-1].get('op') == 'advance':
+                merged[-1] = {'op': 'advance',
+                              'dt': round(merged[-1]['dt'] + op['dt'], 6)}
+            else:
+                merged.append(dict(op))
+        if len(merged) < len(ops):
+            yield config, merged
 
     # ------------------------------------------------------------------
     def _run(self, config, seed, ops, keep_log):
@@ -737,7 +755,9 @@ class TraceSim(enginemod.Engine):
                         'archiver_died_conn_loss',
                         'archiver_raised_unexpected', 'oracle_evaluations',
                         'api_download_checks', 'api_list_checks'):
-                total.probes[key] += res.probes[key]
+                if key in res.probes:
+                    total.probes[key] = total.probes.get(key, 0) + \
+                        res.probes[key]
             for phase, cnt in phases.items():
                 key = 'stopped_in:' + phase
                 total.probes[key] = total.probes.get(key, 0) + cnt
